@@ -11,13 +11,16 @@ BASE_NOTE = ('Trusted: Lean 4.33 kernel; axioms propext/Classical.choice/Quot.so
 
 CHECKS = {
     'C01': dict(
-        text='Engine model (strategy layer, matching loops, both simulators over the accounts and candle-store models, user '
-             'strategy = arbitrary functions of the observable state) tied to the real engine by whole-session trace '
-             'correspondence; oracle: pairs of real runs with a common prefix and different tails must agree on every event '
-             'before the cut. The prefix theorems over the model are being added (see evidence.theorems).',
-        technique='Lean 4 engine model + whole-session correspondence with the real engine; paired-run prefix oracle',
+        text='Theorem (C01.step_prefix / C01.fast_prefix), for EVERY user strategy (an arbitrary record of functions of the '
+             'observable engine state), every configuration, route set, timeframe set, spot/futures: if two candle inputs agree on '
+             'the rows before a cut, the engine model is in the same state (complete trace, candle store, accounts, strategy '
+             'memories) after processing the rows before the cut, in the normal simulator (any cut) and in the fast simulator '
+             '(cut on a chunk boundary). The proof shows every read of the input arrays at iteration i lies in rows <= i (jump '
+             'fix rows i-1,i; windows ending at i; the chunk slice) using faithful Python slice semantics. The engine model is tied '
+             'to the real engine by whole-session trace correspondence; oracle: paired real runs with different tails.',
+        technique='Lean 4 induction over simulator iterations on a validated engine model (core Lean only); whole-session correspondence; paired-run prefix oracle',
         ref='4 (C01)',
-        note='Until the prefix theorem is proved the claim rests on the model correspondence and the paired-run oracle.'),
+        note='Warm-up injection is covered by the correspondence/oracle only.'),
     'C02': dict(
         text='Engine model of the per-minute and chunked matching loops (GENERATED split_candle / candle_includes_price / '
              'gap normalisation inside) tied to the real engine by whole-session trace correspondence on volatile, gapping '
